@@ -287,8 +287,8 @@ def boundary_password_cases():
                     hs = hh.hash(pw, **kw)
                 except Exception:  # noqa: BLE001
                     continue        # not an admissible password for the scheme
-                if not h.identify(hs):
-                    continue        # the scheme itself does not claim the string: the empty password is not admissible for ldap_plaintext (C01's business)
+                if s == "ldap_plaintext" and pw == "":
+                    continue        # the empty password is not admissible for ldap_plaintext (its hash "" is a string the scheme itself rejects: C01's business)
                 inp = {"op": "boundary-password", "context": label, "scheme": s, "password": pw, "hash": hs}
                 try:
                     who = c.identify(hs)
